@@ -54,7 +54,8 @@ def generate(ctx):
                 # per-synapse delays (the per-filter synaptic layout): input held constant past the longest delay
                 "delay_steps": rng.choice([None, None, None, 1, 2]),
                 # memory layout of the assigned weight (values are what counts, not strides)
-                "weight_layout": rng.choice(["contiguous", "contiguous", "channels_last", "transposed_view", "expanded"])}
+                "weight_layout": rng.choice(["contiguous", "contiguous", "channels_last", "transposed_view", "expanded"]),
+                "via_init": rng.random() < 0.25}
         # rectangular padding / dilation (kept only when the output stays non-empty)
         p2, d2 = [rng.randint(0, 2), rng.randint(0, 2)], [rng.randint(1, 2), rng.randint(1, 2)]
         if rng.random() < 0.5 and (h + 2 * p2[0] - d2[0] * (kh - 1) - 1) >= 0 and (w + 2 * p2[1] - d2[1] * (kw - 1) - 1) >= 0:
@@ -237,11 +238,19 @@ def _conv(ctx, desc):
     g = torch.Generator().manual_seed(desc["seed"])
     try:
         K = desc.get("delay_steps")
+        ini = {}
+        if desc.get("via_init"):
+            # parameters through the documented initialiser callables (then no assignment after construction)
+            ini = dict(weight_init=lambda x_: torch.randn(x_.shape, generator=g).to(x_.dtype) + 1.5,
+                       bias_init=lambda x_: torch.randn(x_.shape, generator=g).to(x_.dtype),
+                       delay_init=lambda x_: torch.randint(0, (K or 0) + 1, x_.shape, generator=g).to(x_.dtype))
+            ctx.count("initialiser_built_conv_connections")
         conn = Conv2D(h, w, c, f, 1.0, (kh, kw), stride=stride, padding=p, dilation=d, synapse=_syn(), bias=desc["bias"],
-                      batch_size=B, delay=(float(K) if K else None))
+                      batch_size=B, delay=(float(K) if K else None), **ini)
         conn.to(torch.float64)
         if K:
-            conn.delay = torch.randint(0, K + 1, conn.delay.shape, generator=g).to(torch.float64)
+            if not desc.get("via_init"):
+                conn.delay = torch.randint(0, K + 1, conn.delay.shape, generator=g).to(torch.float64)
             ctx.count("delayed_conv_cases")
     except Exception as e:  # noqa: BLE001
         return ctx.violation(ctx.exc_signature(e, "construct.conv"), f"{type(e).__name__}: {str(e)[:140]}", desc)
@@ -255,14 +264,18 @@ def _conv(ctx, desc):
         Wv = Wv[:, :1].expand(-1, c, -1, -1)                           # one channel's kernel shared by all channels (stride 0)
     if lay != "contiguous":
         ctx.count("conv_weights_assigned_in_other_memory_layouts")
-    try:
-        conn.weight = Wv
-    except Exception as e:  # noqa: BLE001
-        return ctx.violation(ctx.exc_signature(e, "assign_weight.conv"), f"{type(e).__name__}: {str(e)[:140]}", desc)
-    if not torch.equal(conn.weight.detach(), Wv):
-        return ctx.violation("conv.weight_setter_changed_values", f"weight assigned in layout {lay} reads back differently", desc)
-    if desc["bias"]:
-        conn.bias = torch.randn(conn.bias.shape, generator=g, dtype=torch.float64)
+    if desc.get("via_init"):
+        if bool((conn.weight == 0).all()) or (desc["bias"] and bool((conn.bias == 0).all())):
+            return ctx.violation("conv.initialiser_ignored", "weight_init / bias_init had no effect", desc)
+    else:
+        try:
+            conn.weight = Wv
+        except Exception as e:  # noqa: BLE001
+            return ctx.violation(ctx.exc_signature(e, "assign_weight.conv"), f"{type(e).__name__}: {str(e)[:140]}", desc)
+        if not torch.equal(conn.weight.detach(), Wv):
+            return ctx.violation("conv.weight_setter_changed_values", f"weight assigned in layout {lay} reads back differently", desc)
+        if desc["bias"]:
+            conn.bias = torch.randn(conn.bias.shape, generator=g, dtype=torch.float64)
     x = torch.randn((B, c, h, w), generator=g, dtype=torch.float64)
     ctx.case(f"conv/h{h}w{w}/c{c}f{f}/k{kh}x{kw}/s{stride}/p{p}/d{d}/bias{int(desc['bias'])}")
     ref = F.conv2d(x, conn.weight.detach(), conn.bias.detach() if desc["bias"] else None, stride=stride, padding=p, dilation=d)
